@@ -146,9 +146,11 @@ def run(seed, tier, prop):
     res["steps"] = len(records) * (1 + K)
     res["states"] = sorted(w0.state_sigs)
     res["inter"] = sorted(repr(x) for x in w0.interleavings)
-    if seed % 97 == 0 or not res["ok"]:
+    if (seed % 97 == 0 or (seed & 0xFFFFF) < 2) or not res["ok"]:
         res["sample"] = {"seed": int(seed), "config": {k: v for k, v in cfg.items() if k != "weights"},
-                         "ops": [r["op"] + ":" + str(r.get("cls") or r.get("how") or r.get("which") or r.get("name") or "") for r in records]}
+                         "ops": [r["op"] + ":" + str(r.get("cls") or r.get("how") or r.get("which") or r.get("name") or "") for r in records],
+                         "last_fault_schedule": {str(a): b for a, b in (faults if "faults" in dir() else {}).items()},
+                         "last_update_full_flips": list(flips) if "flips" in dir() else []}
     res["wall"] = time.time() - t0
     return res
 
